@@ -92,7 +92,8 @@ def c10_cases(tier, seed):
     n = 4000 if tier == "thorough" else 600
     for _ in range(n):
         cfg = cfg_tok(rng)
-        kind = rng.choice(["save", "append_new", "append_existing", "append_existing", "cycles", "append_twice", "append_empty_file"])
+        kind = rng.choice(["save", "append_new", "append_existing", "append_existing", "cycles", "append_twice", "append_empty_file",
+                           "append_noload"])
         alpha = rng.choice([ALPHA10, SMALL])
         mk = lambda: enc(rand_entry(rng, alpha, rng.choice([4, 8, 40])))
         ops = ["new 0 " + cfg] + ["add 0 " + mk() for _ in range(rng.randint(0, 6))]
@@ -115,6 +116,15 @@ def c10_cases(tier, seed):
                 ops += ["append 1"]
             ops += ["new 9 " + cfg, "load 9"]
             w = len(ops) - 3
+        elif kind == "append_noload":
+            # a session that holds only new lines (it never loaded the file, or cleared what it loaded) appends to an
+            # existing file: the file's entries stay, the new ones follow
+            ops += ["save 0", "new 1 " + cfg]
+            if rng.random() < 0.4:
+                ops += ["load 1", "clear 1"]
+            ops += ["add 1 " + mk() for _ in range(rng.randint(1, 3))]
+            ops += ["append 1", "new 9 " + cfg, "load 9"]
+            w = None
         elif kind == "append_empty_file":
             # the file exists but is empty (or holds only blank lines) when the session loads it
             ops = ["put " + rng.choice(["-", "-", "a", "a.a"]), "new 0 " + cfg, "load 0"]
@@ -177,6 +187,8 @@ def c10_corr(res, exe, driver, tier, seed, tmp):
                 why = "legacy file did not load: R=%s" % final[0]
             elif final[1] != exp:
                 why = "legacy load: entries %r, expected every non-empty line verbatim %r" % (final[1], exp)
+        elif meta["writer_step"] is None:
+            pass        # (the expected content is the model's: the writer's own entries are not the file's)
         else:
             w = obs[meta["writer_step"]]
             if w[2] is None and not w[1]:
@@ -196,6 +208,7 @@ def c10_corr(res, exe, driver, tier, seed, tmp):
     res.rule = ("fhist stream: (1) every list of <=2 entries of <=2 chars over {LF,CR,\\,n,r,#,blank,e-acute,a} saved and "
                 "reloaded (quick: every 7th pair, offset by seed; thorough: all); (2) random scenarios "
                 "save / append-to-new / append-to-existing / several appends by one session / append after loading an empty file / "
+                "append by a session holding only new lines (never loaded, or cleared) / "
                 "repeated cycles with random settings over a 12-letter alphabet "
                 "incl. 3- and 4-byte characters; (3) random legacy files with LF/CRLF/unterminated last line. "
                 "Non-trivial = contains LF, CR, backslash or a multi-byte character; distinct by case text. "
